@@ -113,11 +113,13 @@ def run_C08():
 # =================================================================================== C05 / C04 (tree level) / C06 (edit outputs)
 DIRECTED_TREE_DOCS = [      # eighth round: attrpath families that share a prefix of three and more segments, and fresh paths whose tail already exists higher up
     '{\n  services.openssh.enable = true;\n  services.openssh.settings.PermitRootLogin = "no";\n  services.openssh.settings.PasswordAuthentication = false;\n  networking.hostName = "box";\n}\n',
-    '{\n  a.b.c.d = 1;\n  a.b.c.e = 2;\n  f = 3;\n}\n',
+    '{\n  a.b.c.d = 1;\n  a.b.c.e = 2;\n  f = 3;\n}\n', '{\n  # about c\n  a.b.c = 1;\n  x = 0;\n  a.b.d = 2; # keep\n}\n',
     '{\n  a.b.c.d.e = 1;\n  a.b.c.d.f = 2;\n  a.b.c.g = 3;\n  a.b.h = 4;\n}\n',
     '{\n  a.c.d = 1;\n  e = 3;\n}\n', '{\n  a.b.c.x = 1;\n  e = 3;\n}\n',
     '{ config, pkgs, ... }:\n{\n  services.nginx.enable = true; # keep on\n  services.proxy.port = 80;\n}\n',
     # tenth round: comments in the places a binding keeps them — between the value and the `;`, after the `;`, above the binding — and edits of OTHER bindings, repeated on one object
+    # eleventh round: an attrpath family that lies two explicit sets down, and one that lies one explicit set and one attrpath segment down
+    '{\n  x = {\n    a = {\n      b.c = 1;\n      b.d = 2;\n    };\n  };\n}\n', '{ x = { a = { b.c = 1; }; }; }\n', '{\n  x.y = {\n    a = {\n      b.c = 1;\n    };\n    k = 0;\n  };\n}\n',
     '{\n  a = 1\n  # why\n  ;\n  b = 2;\n}\n', '{\n  a = 1 /* v */; # t\n  b = 2;\n  # end\n}\n', '{ pkgs }:\n{\n  a = 1\n  # why\n  ;\n  b = 2; # two\n}\n', 'f {\n  a = 1\n  # why\n  ;\n  b = 2;\n}\n',
 ]
 ALIAS_SCRIPTS = [    # the same VALUE text given twice (sixth round, made unconditional in the tenth): the two bindings never share a value object
@@ -143,6 +145,9 @@ def directed_tree_jobs():
             if len(k) >= 2:
                 yield text, [('set', pstr(k[:-1] + ('fresh',)), '1'), ('rm', pstr(k[:-1] + ('fresh',)))]
                 yield text, [('set', pstr(k[:1] + ('mid',) + k[1:]), '9'), ('set', pstr(k[:1] + ('mid',) + k[1:]), '5')]       # the tail of the new path exists one level up
+            if len(k) >= 3:
+                yield text, [('set', pstr(k[:1] + k[2:]), '9')]          # eleventh round: the same leaf name one level UP (a.d next to a.b.d): a fresh binding, the deeper one keeps its value
+                yield text, [('rm', pstr(k[:1] + k[2:]))]                # … and removing that missing path is refused, nothing is deleted
 def cross_document_alias():
     """a VALUE text used in one document and edited there must arrive unchanged in the next document (one process, two documents)"""
     for val, below, newv in [('{ enable = true; }', 'cfg.enable', 'false'), ('{\n  x = 1;\n}', 'cfg.y', '2'), ('{ }', 'cfg.z', '1')]:
@@ -276,8 +281,9 @@ def run_scoped_frame():
 def run_C09():
     import copy
     for it in range(N):
-        shape = R.choice(['bare', 'lambda_formals', 'lambda_id', 'paren'])
+        shape = R.choice(['bare', 'lambda_formals', 'lambda_id', 'paren', 'assert_blank', 'assert_comment', 'lambda_assert_blank'])      # eleventh round: trivia between `assert c;` and the let
         n = R.randrange(0, 4); layers = gen_layers(R, n)
+        if shape.startswith(('assert', 'lambda_assert')) and n == 0: n = 1; layers = gen_layers(R, 1)
         for li, L in enumerate(layers):          # eighth round: bindings written in attrpath form inside a let layer (`cfg.a = 1;`), addressed as @cfg.a
             if R.random() < 0.35:
                 fam = {'cfg.a': str(R.randrange(9))}
@@ -289,7 +295,8 @@ def run_C09():
         body_keys = ('v', 'a') if 'v = 0' in body else ()
         jt = [R.choice(['# joint %d\n' % i, '/* j%d */\n' % i]) if R.random() < 0.3 else '' for i in range(n)]
         inner = let_text(layers, body, jt)
-        text = {'bare': inner, 'lambda_formals': '{ pkgs }:\n' + inner, 'lambda_id': 'pkgs:\n' + inner, 'paren': '(' + inner + ')'}[shape] + '\n'
+        text = {'bare': inner, 'lambda_formals': '{ pkgs }:\n' + inner, 'lambda_id': 'pkgs:\n' + inner, 'paren': '(' + inner + ')', 'assert_blank': 'assert true;\n\n' + inner, 'assert_comment': 'assert true;\n# note\n' + inner,
+                'lambda_assert_blank': '{ lib }:\n\nassert lib.ok;\n\n' + inner}[shape] + '\n'
         src = parse(text); exp = copy.deepcopy(layers); ops = []; cur = text
         for step in range(R.randint(1, 5)):
             depth = R.choice([1, 1, 2, 2, 3, 4]); name = R.choice(LAYER_NAMES + ['z']); opk = R.choice(['set', 'set', 'rm', 'rm'])
@@ -309,7 +316,9 @@ def run_C09():
                 else:
                     del e2[len(e2) - depth][name]
                     if not e2[len(e2) - depth]: del e2[len(e2) - depth]
-            before = cur; before_obj = src.rebuild(); res = apply(src, op)
+            before = cur; before_obj = src.rebuild(); res_fresh = apply(parse(before_obj), op); res = apply(src, op)
+            if res[0] == 'ok' and res_fresh[0] == 'ok' and res[1] != res_fresh[1] and step > 0 and not any(jt):       # with a comment between `in` and the body the object remembers where the comment stood once its layer is gone: not judged
+                bad('a scoped edit on a document object that was edited before differs from the same edit on a fresh parse of its text', same_object=res[1], fresh_parse=res_fresh[1], doc=text, ops=ops[:]); break
             count('%s/%s/depth%d/layers%d/%s' % (shape, opk, depth, len(exp), 'refuse' if err else 'ok'))
             case = dict(doc=text, ops=ops[:])
             if err:
